@@ -69,10 +69,10 @@ def params_for(it, names, prefix):
     return out
 
 
-def call_model(repo, it, model, params, method='__call__', x=True):
+def call_model(repo, it, model, params, method='__call__', x=True, x_dtype=None):
     m = it.find_method(model.cls, method)
     if method == '__call__':
-        xv = make_param(it, 'x', P(dim='L', positive=False))
+        xv = make_param(it, 'x', P(dim='L', positive=False), dtype=x_dtype)
         return it.call_function(m, [xv], dict(params), bound=model)
     return it.call_function(m, [dict(params)], {}, bound=model)
 
@@ -104,7 +104,7 @@ def run(tier: str) -> Run:
     r1 = run.rule('R1', 'evaluated normal form equals the closed form, for prefix "" and a non-empty prefix', 6)
     r2 = run.rule('R2', 'symmetric about loc; half of the peak value at loc +/- fwhm/2 with the reported FWHM', 6)
     r3 = run.rule('R3', 'result unit is u(amplitude)/u(x); prefix does not change the result', 3)
-    r4 = run.rule('R4', 'missing, unknown and un-prefixed parameter names are refused', 9)
+    r4 = run.rule('R4', 'missing, unknown, un-prefixed and foreign-prefixed parameter names are refused', 15)
     for cname, (names, closed, fwhm_closed) in PEAKS.items():
         fi = repo.func(MOD, f'{cname}._call')
         terms = {}
@@ -153,7 +153,9 @@ def run(tier: str) -> Run:
         # R4 refusals
         for label, mut in (('missing', lambda p, pre: {k: v for k, v in list(p.items())[1:]}),
                            ('unknown', lambda p, pre: {**p, pre + 'bogus': next(iter(p.values()))}),
-                           ('un-prefixed', lambda p, pre: {k[len(pre):]: v for k, v in p.items()})):
+                           ('un-prefixed', lambda p, pre: {k[len(pre):]: v for k, v in p.items()}),
+                           ('foreign prefix of the same length', lambda p, pre: {'qk_' + k[len(pre):]: v for k, v in p.items()}),
+                           ('foreign prefix on one name', lambda p, pre: {('zz_' + k[len(pre):] if n == 0 else k): v for n, (k, v) in enumerate(p.items())})):
             T.reset()
             it = Interp(repo, Model())
             outs = it.run_all(lambda i, c=cname, m=mut: call_model(repo, i, build(repo, i, c, prefix='pk_'), m(params_for(i, names, 'pk_'), 'pk_')))
@@ -162,7 +164,7 @@ def run(tier: str) -> Run:
                      {'outcome': [(o.kind, o.exc_type) for o in outs]}, key=f'{cname}:refuse-{label}')
 
     # ---- polynomial -------------------------------------------------------------
-    r5 = run.rule('R5', 'polynomial equals sum a_i x^i (Horner loop), unit u(a0)', 2)
+    r5 = run.rule('R5', 'polynomial equals sum a_i x^i (Horner loop), unit u(a0); float64 result for float32 / integer x', 4)
     degrees = (1, 2, 3) if tier == 'quick' else (1, 2, 3, 4, 5, 6)
     pfi = repo.func(MOD, 'PolynomialModel._call')
     for deg in degrees:
@@ -185,6 +187,23 @@ def run(tier: str) -> Run:
         bad_units = [e.detail for e in events(outs[0], 'unit-mismatch')]
         r5.check(eq_term(v.term, want) and v.unit == Unit.param('y') and not bad_units, f'degree {deg}', loc(pfi),
                  {'computed': T.show(v.term), 'unit': repr(v.unit), 'unit_problems': bad_units[:2]}, key='polynomial')
+    # the independent variable may be single precision or integer valued (e.g. sc.arange): same polynomial, float result
+    for xdt in ('float32', 'int64'):
+        T.reset()
+        it = Interp(repo, Model())
+
+        def go_dt(i, xdt=xdt):
+            m = build(repo, i, 'PolynomialModel', degree=2, prefix='bkg_')
+            ps = {f'bkg_a{k}': make_param(i, f'a{k}', P(dim='ONE', positive=False, unit=Unit.param('y') / (UX ** k))) for k in range(3)}
+            return call_model(repo, i, m, ps, x_dtype=xdt)
+        outs_dt = it.run_all(go_dt)
+        want = S('a0', False) + S('a1', False) * S('x', False) + S('a2', False) * S('x', False) ** 2
+        ok = len(outs_dt) == 1 and outs_dt[0].kind == 'return' and isinstance(outs_dt[0].value, SVar) and outs_dt[0].value.term is not None \
+            and eq_term(outs_dt[0].value.term, want) and outs_dt[0].value.dtype == 'float64'
+        lossy = [dict(e.detail, where=e.where) for o in outs_dt for e in events(o, 'narrowing-cast', 'int-unit-conversion')]
+        r5.check(ok and not lossy, f'degree 2, x of dtype {xdt}', loc(pfi),
+                 {'outcomes': [(o.kind, o.exc_type, o.where) for o in outs_dt], 'dtype': getattr(outs_dt[0].value, 'dtype', None) if outs_dt and outs_dt[0].kind == 'return' else None,
+                  'lossy': lossy[:2]}, key='polynomial-dtype')
 
     # ---- composite -----------------------------------------------------------------
     r6 = run.rule('R6', 'composite equals the sum of its parts; with_prefix acts on a copy', 2)
